@@ -125,7 +125,7 @@ Definition proc_first_n (n:N) (s:N * list line) (ts:N) (pay:list byte) : pres (N
   if (n <=? k')%N then PStop (k', (ts, pay) :: out) else PCont (k', (ts, pay) :: out).
 
 (* the BytesResampler used by the harness: item = one number per payload byte *)
-Definition rs_decode (pay:list byte) : list N := map Byte.to_N pay.
+Definition rs_decode (pay:list byte) : list N := map rs_dec pay.
 Definition rs_add (st item:list N) : list N := map (fun x => (fst x + snd x)%N) (combine st item).
 Definition rs_finish (st:list N) (collected:N) : list N := map (fun s => (s / collected)%N) st.
 Definition rs_encode (item:list N) : list byte := map byte_of_N item.
